@@ -75,6 +75,48 @@ struct Ident {
                 return;
             }
         }
+        variadic(x, p, std::make_index_sequence<N>{});
+    }
+
+    // the same point through the variadic overload at(c0, c1, ...): every argument is converted to the
+    // coordinate scalar on its own, so spelling one of them in another arithmetic type that holds the
+    // same value exactly must choose the same lattice point as at(coordinate_t)
+    template <std::size_t K, std::size_t P, typename A>
+    static auto pick(const R * x)
+    {
+        if constexpr (K == P)
+            return (A)x[K];
+        else
+            return x[K];
+    }
+
+    template <std::size_t P, typename A, std::size_t... Is>
+    typename field_t::output_t at_with(const R * x, std::index_sequence<Is...>)
+    {
+        return v.at(pick<Is, P, A>(x)...);
+    }
+
+    template <std::size_t... Is>
+    void variadic(const R * x, const typename field_t::output_t & p, std::index_sequence<Is...> seq)
+    {
+        auto cmp = [&](const char * how, const typename field_t::output_t & q) {
+            vh::ev();
+            for (std::size_t k = 0; k < N; ++k)
+                if (q[k] != p[k]) {
+                    vh::viol(name + ":variadic", std::string("at(") + how + ") chose lattice point " + std::to_string((uint64_t)q[k]) + " on axis " + std::to_string(k) + ", at(coordinate_t) chose " + std::to_string((uint64_t)p[k]) + " for x=" + qs((Q)x[k]) + " (" + vh::hexfloat((double)x[k]) + ")");
+                    return;
+                }
+        };
+        cmp("R...", v.at(x[Is]...));
+        auto is_int = [](R a) { return a >= 0 && a < (R)2.0e9 && (R)(int)a == a; };
+        auto is_flt = [](R a) { return (R)(float)a == a; };
+        if (is_int(x[0])) cmp("int first", at_with<0, int>(x, seq));
+        if (is_flt(x[0])) cmp("float first", at_with<0, float>(x, seq));
+        cmp("long double first", at_with<0, long double>(x, seq));
+        if constexpr (N >= 2) {
+            if (is_int(x[N - 1])) cmp("int last", at_with<N - 1, int>(x, seq));
+            if (is_flt(x[N - 1])) cmp("float last", at_with<N - 1, float>(x, seq));
+        }
     }
 
     void axis_values(std::vector<R> & out, vh::Rng & rng, bool thorough)
